@@ -4,6 +4,7 @@ CONSTANTS
   NCalls = 1
   Sections <- SecMeasured
   MaxPreempt = 2
+  MinListAtFork = 0
   Forkers <- NoFork
   AtFork = "locked"
   Defects <- NoDefects
